@@ -13,6 +13,7 @@ CLAIM = {
  'design_ref': 'DESIGN.md section 6 C15',
 }
 
+ANCHOR_FILES = ['src/TotalDepth/common/Slice.py']
 RULE = ('slice: exhaustive (n, start, stop, step) over a small scope + random large n; sample: all (N, n) in a grid + '
         'random large; option strings from a grammar + a malformed stream. A case is non-trivial when it selects at '
         'least 2 indices and fewer than n (slice/sample) or is an accepted/rejected option string class; distinct by '
